@@ -39,62 +39,102 @@ def swap_sites(fn, F):
     return out
 
 
+def loopvar(fn, loop):
+    d = fn.n(loop["loopvar"])["decls"][0]
+    return ("var", d["n"], d["d"]), d
+
+
+def swapped_containers(F, fn, depth=2):
+    """(node in fn, container term) for every container all of whose colours get red and blue exchanged once:
+    a by-reference range-for over it whose body swaps the loop variable's red/blue once; or a call of a repository
+    function that does this to its by-reference parameter."""
+    out = []
+    sw = swap_sites(fn, F)
+    for lp in [nd for nd in fn.nodes if nd["k"] == "CXXForRangeStmt"]:
+        v, d = loopvar(fn, lp)
+        inside = [x for x in sw if x[0]["id"] in fn.subtree(lp["body"]) and x[1] == v]
+        nested = [l2 for l2 in fn.nodes if l2["k"] == "CXXForRangeStmt" and l2["id"] != lp["id"] and l2["id"] in fn.subtree(lp["body"])
+                  and any(x[0]["id"] in fn.subtree(l2["id"]) for x in inside)]
+        if len(inside) == 1 and not nested and d.get("is_ref"):
+            out.append((lp, fn.term(lp["range"])))
+    if depth > 0:
+        for nd in fn.nodes:
+            if nd["k"] in CALLS and len(nd.get("args", [])) >= 1:
+                for cal in F.callees(nd):
+                    if not cal.cfg or cal.key == fn.key or not cal.params:
+                        continue
+                    for (n2, obj) in swapped_containers(F, cal, depth - 1):
+                        for i, p in enumerate(cal.params):
+                            if obj == ("var", p["n"], p["d"]) and p.get("ref") and not p.get("const_ref") and i < len(nd["args"]):
+                                out.append((nd, fn.term(nd["args"][i])))
+    return out
+
+
+def element_of(fn, t, container):
+    """Value term t denotes one element of `container`: container[i], or a by-reference range-for variable over it, or a
+    reference local bound to such an element."""
+    if t[0] == "idx" and t[1] == container:
+        return True
+    if t[0] == "var":
+        for lp in fn.nodes:
+            if lp["k"] == "CXXForRangeStmt":
+                v, d = loopvar(fn, lp)
+                if v == t and d.get("is_ref") and fn.term(lp["range"]) == container:
+                    return True
+        for nd in fn.nodes:
+            if nd["k"] == "DeclStmt":
+                for d in nd.get("decls", []):
+                    if ("var", d.get("n"), d.get("d")) == t and d.get("is_ref") and "init" in d:
+                        return element_of(fn, fn.term(d["init"]), container)
+    return False
+
+
 def palette_swaps(F, S):
     out = []
     rp = F.fn(A + "::ReadPalette", nparams=2)
     wp = F.fn(A + "::WritePalettes", nparams=1)
-    # reader: one swap per colour, in a loop over the palette just read, after the read
-    sw = swap_sites(rp, F)
-    reads = [nd for nd in rp.nodes if nd["k"] == "CXXMemberCallExpr" and nd.get("fname") == "Read" and "palettes" in repr(rp.term(nd["args"][0]))]
+    # reader: one swap per colour of the palette just read, after the read
+    art = ("var", rp.params[1]["n"], rp.params[1]["d"])
+    pals = ("mem", art, "palettes")
+    sw = swapped_containers(F, rp)
+    reads = [nd for nd in rp.nodes if nd["k"] == "CXXMemberCallExpr" and nd.get("fname") == "Read" and element_of(rp, rp.term(nd["args"][0]), pals)]
     inst = A + "::ReadPalette#swap-once"
     req = "each palette read from the file has red and blue exchanged exactly once, after it is read"
-    good = len(sw) == 1 and len(reads) == 1 and sw[0][0]["id"] > reads[0]["id"]
+    good = len(sw) == 1 and len(reads) == 1 and sw[0][0]["id"] > reads[0]["id"] and sw[0][1] == rp.term(reads[0]["args"][0])
     if good:
-        loops = [nd for nd in rp.nodes if nd["k"] == "CXXForRangeStmt" and sw[0][0]["id"] in rp.subtree(nd["body"])]
-        good = len(loops) == 1 and rp.term(loops[0]["range"]) == rp.term(reads[0]["args"][0]) and \
-            rp.n(loops[0]["loopvar"])["decls"][0].get("is_ref")
-    if good:
-        out.append(ok("R-MUSTCALL", inst, rp.loc(sw[0][0]["id"]), rp.qn, req, "one swap in a by-reference loop over the palette just read"))
+        out.append(ok("R-MUSTCALL", inst, rp.loc(sw[0][0]["id"]), rp.qn, req, "one swap per colour of the palette element just read"))
     else:
-        out.append(bad("R-MUSTCALL", inst, rp.loc(rp.body), rp.qn, req, "%d swap sites; shape not as required" % len(sw)))
+        out.append(bad("R-MUSTCALL", inst, rp.loc(rp.body), rp.qn, req, "%d swapped containers, %d palette reads; shape not as required" % (len(sw), len(reads))))
     # writer: swap applied to a by-value copy, exactly once, before that copy is written; the member is never swapped
-    sw = swap_sites(wp, F)
+    sw = swapped_containers(F, wp)
     inst = A + "::WritePalettes#swap-once-on-copy"
     req = "each palette is written with red and blue exchanged exactly once, on a by-value copy (the in-memory object is not altered)"
-    good = len(sw) == 1
-    detail = "%d swap sites" % len(sw)
+    good = len(sw) == 1 and sw[0][1][0] == "var"
+    detail = "%d swapped containers" % len(sw)
     if good:
-        # the colours swapped are those of one variable R; R must be a by-value local (a copy of the stored palette),
-        # and R is what is written afterwards
-        inner = [nd for nd in wp.nodes if nd["k"] == "CXXForRangeStmt" and sw[0][0]["id"] in wp.subtree(nd["body"])]
-        inner = [nd for nd in inner if wp.term(nd["range"])[0] == "var"]
-        good = len(inner) >= 1
-        if good:
-            R = wp.term(inner[-1]["range"])
-            decl = None
-            for nd in wp.nodes:
-                if nd["k"] == "DeclStmt":
-                    for d in nd.get("decls", []):
-                        if ("var", d.get("n"), d.get("d")) == R:
-                            decl = d
-            by_value = decl is not None and not decl.get("is_ref")
-            from_member = False
-            if decl is not None and "init" in decl:
-                it = wp.term(decl["init"])
-                # loop variable of a range-for over this->palettes, or a copy of such a loop variable
-                src = it
-                if it[0] == "var":
-                    for nd in wp.nodes:
-                        if nd["k"] == "CXXForRangeStmt" and wp.n(nd["loopvar"])["decls"][0].get("d") == it[2]:
-                            src = ("elem", wp.term(nd["range"]))
-                for nd in wp.nodes:
-                    if nd["k"] == "CXXForRangeStmt" and wp.n(nd["loopvar"])["decls"][0].get("d") == R[2]:
-                        src = ("elem", wp.term(nd["range"]))
-                from_member = src == ("elem", ("mem", ("this",), "palettes"))
-            ref_elems = wp.n(inner[-1]["loopvar"])["decls"][0].get("is_ref")
-            writes = [nd for nd in wp.nodes if nd["k"] == "CXXMemberCallExpr" and nd.get("fname") == "Write" and wp.term(nd["args"][0]) == R]
-            good = by_value and from_member and ref_elems and len(writes) == 1 and writes[0]["id"] > inner[-1]["id"]
-            detail = "swapped object is a by-value copy: %s; copied from the stored palette: %s; written after the swap: %s" % (by_value, from_member, len(writes) == 1)
+        R = sw[0][1]
+        decl = None
+        src = None
+        for nd in wp.nodes:
+            if nd["k"] == "DeclStmt":
+                for d in nd.get("decls", []):
+                    if ("var", d.get("n"), d.get("d")) == R:
+                        decl = d
+                        if "init" in d:
+                            src = wp.term(d["init"])
+        for lp in wp.nodes:
+            if lp["k"] == "CXXForRangeStmt":
+                v, d = loopvar(wp, lp)
+                if v == R:
+                    decl = d
+                    src = ("elem", wp.term(lp["range"]))
+                elif src == v:
+                    src = ("elem", wp.term(lp["range"]))
+        by_value = decl is not None and not decl.get("is_ref")
+        from_member = src == ("elem", ("mem", ("this",), "palettes")) or (src is not None and src[0] == "idx" and src[1] == ("mem", ("this",), "palettes"))
+        writes = [nd for nd in wp.nodes if nd["k"] == "CXXMemberCallExpr" and nd.get("fname") == "Write" and wp.term(nd["args"][0]) == R]
+        good = by_value and from_member and len(writes) == 1 and writes[0]["id"] > sw[0][0]["id"]
+        detail = "swapped object is a by-value copy: %s; copied from the stored palette: %s; written after the swap: %s" % (by_value, from_member, len(writes) == 1)
     if good:
         out.append(ok("R-MUSTCALL", inst, wp.loc(sw[0][0]["id"]), wp.qn, req, detail))
     else:
